@@ -84,6 +84,7 @@ class _Run:
         self.shapes = list(self.plan.get("shapes") or ["plain"] * 3)      # class of the object in each pool slot
         self.made = {}           # tag -> Made: what the dispenser's factory method created (never unregistered)
         self.made_by_id = {}     # MODEL of that separate namespace: generated id -> tag
+        self.hooks = {}          # tag -> callable the factory object runs inside Daemon.register() (a slow registration)
         self.remote = 0
         self.accepted = 0
         self._ix, self._iids = [], []
@@ -637,13 +638,25 @@ class _Run:
             return "%s: %s" % (out[1], out[2])
         return repr(out)
 
-    def do_gc(self, op):
+    def do_gc(self, op, audit=True):
         k = op["k"]
         xk = ("o", self.serial[k])
         ids = self.ids_of(xk)
-        if any(not self.table[i][1] for i in ids):
-            return      # strongly registered: the daemon legitimately keeps it alive
         self.involve([xk], ids, reset=True)
+        if any(not self.table[i][1] for i in ids):
+            # strongly registered: the harness lets go of it all the same - the registration must keep it alive and known
+            # (no settle() here: nothing is scheduled, so histories recorded before this check existed replay unchanged)
+            w = weakref.ref(self.pool[k])
+            del self.pool[k]
+            gc.collect()
+            if w() is None:
+                if audit:
+                    self.audit("gc:strong")
+                self.viol("registered-object-collected", "gc:strong", "%s is strongly registered under %r; when the application dropped "
+                          "its own reference the object was collected" % (self.name(xk), [i for i in ids if not self.table[i][1]]))
+            self.pool[k] = w()
+            self.ctx.probe("strong_survives_gc")
+            return
         self.settle()   # no server thread is inside a request (a frame could still hold the object)
         w = weakref.ref(self.pool[k])
         del self.pool[k]
@@ -667,7 +680,8 @@ class _Run:
         if ids:
             self.ctx.probe("weak_collected")
         self.fresh(k)
-        self.audit("gc:" + ("weak" if ids else "unregistered"))
+        if audit:
+            self.audit("gc:" + ("weak" if ids else "unregistered"))
 
     def do_par(self, op):
         """2-3 clients (own threads, own proxies) call the dispenser's factory method at the same instant; each call
@@ -700,11 +714,27 @@ class _Run:
                 out = ("crash", type(x).__name__, str(x)[:200])
             res[j] = out
 
+        for j, c in enumerate(callers):
+            if c.get("slow"):
+                # this caller's object is slow to take its marks: its thread sits inside register() for a while
+                self.hooks[base + j] = lambda d=c["slow"]: sched.sleep(d)
         ths = [threading.Thread(target=client, args=(j, c), name="client%d" % j) for j, c in enumerate(callers)]
         for t in ths:
             t.start()
+        collected = False
+        g = op.get("gc")
+        if g is not None:
+            # one more actor, the application itself: while the factory calls are under way it drops a pool object
+            # (interesting when that object is weakly registered: its finalizer runs here, next to the registrations)
+            if g.get("after"):
+                sched.sleep(g["after"])
+            n_before = len(self.table)
+            self.do_gc({"k": g["k"]}, audit=False)
+            collected = len(self.table) < n_before
+            self.op = op
         for t in ths:
             t.join(600.0)
+        self.hooks.clear()
         if any(sched.sim_thread_of(t).state != "done" for t in ths):
             self.viol("make-hung", "par-make", "a factory call did not return within 600 virtual seconds: %r" % (res,))
         sched.quiesce()
@@ -731,10 +761,12 @@ class _Run:
                     what(j), i, "caller %d got as well" % clash[0] if clash else "is registered for something else already"))
         for j, i in enumerate(ids):
             self.made_by_id[i] = base + j
-        self.audit("par-make")
+        self.audit("par-make:gc" if collected else "par-make")
         for j, i in enumerate(ids):
             self.check_made(i, callers[j]["ser"])
         ctx.probe("par_make")
+        if collected:
+            ctx.probe("par_gc_weak")
         if sched.preempts + sched.stalls > pre0:
             ctx.probe("par_overlap")
 
@@ -762,7 +794,7 @@ class _Run:
         self.dobj = self.daemon.objectsById[DAEMON_ID]
         for slot in range(3):
             self.fresh(slot)
-        self.daemon.register(O.Dispenser(self.pool, self.made), DISP_ID)
+        self.daemon.register(O.Dispenser(self.pool, self.made, self.hooks), DISP_ID)
         steps = {"par": self.do_par, "reg": self.do_reg, "unreg": self.do_unreg, "uri": self.do_uri, "proxy": self.do_proxy, "call": self.do_call,
                  "ret": self.do_ret, "gc": self.do_gc, "list": lambda op: self.do_list(op.get("ser", "serpent"))}
         for i, op in enumerate(plan["ops"]):
@@ -811,19 +843,24 @@ class RegistryWorld(World):
     PROBES = ["call_routed", "call_unknown", "return_proxy", "return_by_value", "unregister_by_id", "unregister_by_object",
               "weak_collected", "weak_collected_unknown", "duplicate_refused", "reserved_refused", "forced", "class_registered",
               "generated_id", "registered_listing", "serpent", "json", "msgpack", "multiplex", "thread",
-              "shape_len0", "shape_bool0", "shape_state", "par_make", "par_overlap"]
+              "shape_len0", "shape_bool0", "shape_state", "par_make", "par_overlap", "par_gc_weak", "strong_survives_gc",
+              "shape_inst"]
     RULE = ("plan = (server type, generator tier core|extended, 3-10 steps (thorough: -16) of register / unregister / uriFor / "
             "proxyFor / call / return-object / gc / registered over 3 pool objects + 2 classes + ids id0..id2, generated, "
             "colliding ('the current or last id of object k'), reserved; force only in the extended tier; weak for objects; "
             "serializer per remote step; 40% of the plans embed a directed motif - id re-use after an object lost it, forced "
             "replacement, forced second id - among random steps) followed by a fixed epilogue (listing, a call to every id ever seen, uriFor + return of every pool "
             "object, a call to every factory-made object); each pool slot holds a plain object or one that is falsy (always-empty "
-            "__len__, __bool__ False, or a __len__ that follows its state); 10% of the plans end with a directed tail (object a loses id X but keeps its marks - "
+            "__len__, __bool__ False, or a __len__ that follows its state); 19% of the plans end with a directed tail (forced re-registration under "
+            "the own id with the weak flag flipped, then gc; class K registered, then an instance of K force-registered under the "
+            "same id; or:  (object a loses id X but keeps its marks - "
             "forced takeover or unregister-by-id + re-registration -, the new holder is registered weakly, a is unregistered by "
             "object, the holder is collected, then X is listed / called / registered again); another 10% run on the thread server with "
             "line pre-emption (p_line 0.1-0.4, optional stalls) inside Daemon.register & helpers and contain 1-2 'par' steps: "
             "2-3 clients call the dispenser's factory method (register without id, return object or uri) at the same "
-            "instant; distinct = distinct plan; non-trivial = a registration was accepted and a remote step ran")
+            "instant, optionally one of the new objects is slow to take its marks (its thread sits inside register()) and the "
+            "driver drops + collects a weakly registered pool object meanwhile; a gc point on a strongly registered object "
+            "drops the harness reference too: the object must survive; distinct = distinct plan; non-trivial = a registration was accepted and a remote step ran")
     ASSUMPTIONS = ["the id -> object table is the truth; marks on objects are not consulted",
                    "register(x, 'Pyro.Daemon', force=True) and any forced registration over the dispenser are not generated",
                    "unregistering something that is not registered may be refused or silently ignored; the table must not change",
@@ -955,6 +992,36 @@ class RegistryWorld(World):
         seq.append({"op": "call", "id": idb, "ser": rng.choice(SERIALIZERS)})
         return seq
 
+    def _focus_force_same_id(self, rng):
+        """directed tail: an object is registered again under its OWN id with force and the weak flag flipped, then the
+        application drops it: weak -> strong must survive and stay known, strong -> weak must go"""
+        a = rng.randrange(3)
+        ida = "@o%d" % a
+        w0 = rng.random() < 0.6
+        seq = [{"op": "reg", "x": ["o", a], "id": rng.choice(LIT_IDS + [None, None]), "force": False, "weak": w0}]
+        if rng.random() < 0.3:
+            seq.append({"op": "call", "id": ida, "ser": rng.choice(SERIALIZERS)})
+        seq.append({"op": "reg", "x": ["o", a], "id": ida, "force": True, "weak": not w0})
+        if rng.random() < 0.3:
+            seq.append({"op": "ret", "k": a, "ser": rng.choice(RET_SERS)})
+        seq += [{"op": "gc", "k": a}, {"op": "list", "ser": rng.choice(SERIALIZERS)}, {"op": "call", "id": ida, "ser": rng.choice(SERIALIZERS)}]
+        return seq
+
+    def _focus_class_then_instance(self, rng, a):
+        """directed tail: class K (index 2) is registered under X, then pool object a - an INSTANCE of K - is registered
+        under X with force: X must now reach that very instance, and the instance must come back as a proxy to itself.
+        (Slot a is not looked at while K is registered and a is not: an instance of a registered class stands for the
+        class registration by design, which is another statement.)"""
+        seq = [{"op": "reg", "x": ["c", 2], "id": rng.choice(LIT_IDS + [None]), "force": False, "weak": False}]
+        if rng.random() < 0.4:
+            seq.append({"op": "call", "id": "@c2", "ser": rng.choice(SERIALIZERS)})
+        seq.append({"op": "reg", "x": ["o", a], "id": "@c2", "force": True, "weak": False})
+        seq.append({"op": "call", "id": "@o%d" % a, "ser": rng.choice(SERIALIZERS)})
+        seq.append({"op": "ret", "k": a, "ser": rng.choice(RET_SERS)})
+        if rng.random() < 0.4:
+            seq.append({"op": "proxy", "x": ["o", a], "ser": rng.choice(SERIALIZERS)})
+        return seq
+
     def line_codes(self, plan):
         return _codes() if plan.get("par") and plan["servertype"] == "thread" else ()
 
@@ -983,6 +1050,26 @@ class RegistryWorld(World):
         shapes = ["plain", "plain", "plain"]
         if rng.random() < 0.5:
             shapes = [rng.choice(["plain", "len0", "bool0", "state"]) for _ in range(3)]
+        if "focus" not in plan:
+            r = rng.random()
+            if r < 0.05:
+                del ops[:]
+                for _ in range(rng.choice([0, 0, 1, 2])):
+                    ops.append(self._op(rng, gtier))
+                ops.extend(self._focus_force_same_id(rng))
+                gtier = plan["gtier"] = "extended"
+                plan["focus"] = "force-same-id-flip"
+            elif r < 0.09:
+                a = rng.randrange(3)
+                del ops[:]
+                for _ in range(rng.choice([0, 0, 1, 2])):
+                    o = self._op(rng, "core")
+                    if o.get("x") != ["o", a] and o.get("k") != a and o.get("id") != "@o%d" % a:
+                        ops.append(o)       # nothing touches slot a before the tail
+                ops.extend(self._focus_class_then_instance(rng, a))
+                shapes[a] = "inst"
+                gtier = plan["gtier"] = "extended"
+                plan["focus"] = "class-then-instance"
         plan["shapes"] = shapes
         if "focus" not in plan and rng.random() < 0.11:
             # concurrent factory calls: thread server, line pre-emption inside the registration code
@@ -994,7 +1081,17 @@ class RegistryWorld(World):
             del ops[5:]
             for _ in range(rng.randint(1, 2)):
                 callers = [{"mode": rng.choice(["obj", "obj", "uri"]), "ser": rng.choice(RET_SERS)} for _ in range(rng.randint(2, 3))]
-                ops.insert(rng.randint(0, len(ops)), {"op": "par", "callers": callers})
+                par = {"op": "par", "callers": callers}
+                at = rng.randint(0, len(ops))
+                if rng.random() < 0.6:
+                    # the application drops a weakly registered pool object while the factory calls are under way
+                    k = rng.randrange(3)
+                    par["gc"] = {"k": k, "after": rng.choice([0.0, 0.05, 0.2])}
+                    if rng.random() < 0.7:
+                        callers[rng.randrange(len(callers))]["slow"] = rng.choice([0.1, 0.3, 1.0])
+                    ops.insert(at, {"op": "reg", "x": ["o", k], "id": rng.choice(LIT_IDS + [None, None]), "force": False, "weak": True})
+                    at += 1
+                ops.insert(at, par)
         return plan
 
     def simplify(self, plan):
